@@ -1,9 +1,10 @@
-(* C09 -- the traversal theorems: a registered iterator advanced through any interleaving with calm
-   operations shows no entry twice and misses no entry that stayed in its table. *)
+(* C09 -- the traversal theorems: a registered iterator advanced through any interleaving with quiet
+   operations (calm ones, and relinking ones that leave the order of its table unchanged) shows no
+   entry twice and misses no entry that stayed in its table. *)
 From Coq Require Import List Arith ZArith NArith PArith Bool Lia FMapPositive Permutation.
 From Muscle Require Import Cont.HtModel Cont.HtStep Cont.HtIdeal Cont.HtLemmas Cont.HtRepr Cont.HtWalk Cont.HtIters
                            Cont.HtTable Cont.HtMoves Cont.HtPut Cont.HtExact Cont.HtPend Cont.HtTrav Cont.HtRefTab
-                           Cont.HtInv Cont.HtInvIter Cont.HtSafe Cont.HtSwap Cont.HtSafeAll Cont.HtTravW Cont.HtTravOps.
+                           Cont.HtInv Cont.HtInvIter Cont.HtSafe Cont.HtSwap Cont.HtSafeAll Cont.HtTravW Cont.HtTravOps Cont.HtTravSem.
 Import ListNotations.
 
 Definition opt_list {A} (o : option A) : list A := match o with Some x => [x] | None => [] end.
@@ -135,11 +136,11 @@ Fixpoint trav (i : nat) (w : world) (ops : list op) : list positive :=
     (match o with OIterAdv j => if Nat.eqb j i then opt_list (cur w' i) else [] | _ => [] end) ++ trav i w' r
   end.
 
-(* a traversal of iterator i: advances of i, interleaved with calm operations that do not operate on i *)
+(* a traversal of iterator i: advances of i, interleaved with quiet operations that do not operate on i *)
 Inductive tr_ok (i : nat) : world -> list op -> Prop :=
 | tr_nil : forall w, tr_ok i w []
 | tr_adv : forall w r, tr_ok i (fst (step1 var dcap w (OIterAdv i))) r -> tr_ok i w (OIterAdv i :: r)
-| tr_mut : forall w o r, touches i o = false -> calm var dcap w o ->
+| tr_mut : forall w o r, touches i o = false -> quiet var dcap i w o ->
              tr_ok i (fst (step1 var dcap w o)) r -> tr_ok i w (o :: r).
 
 (* n stays in the iterator's table through the whole run *)
@@ -148,6 +149,37 @@ Fixpoint stays (i : nat) (n : positive) (w : world) (ops : list op) : Prop :=
   | [] => True
   | o :: r => In n (it_list (fst (step1 var dcap w o)) i) /\ stays i n (fst (step1 var dcap w o)) r
   end.
+
+(* the same premise as a decidable check: every operation other than an advance of i does not operate
+   on i, is not a double move, and keeps the relative order of the entries of i's table *)
+Fixpoint sem_okd (i : nat) (w : world) (ops : list op) : bool :=
+  match ops with
+  | [] => true
+  | o :: r =>
+    let w' := fst (step1 var dcap w o) in
+    (match o with
+     | OIterAdv j => if Nat.eqb j i then true else order_keptb (it_list w i) (it_list w' i)
+     | _ => negb (touches i o) && negb (double_move var w o) && order_keptb (it_list w i) (it_list w' i)
+     end) && sem_okd i w' r
+  end.
+
+Lemma calm_or_relinking : forall w o, relinking o = false -> calm var dcap w o.
+Proof. intros w o H. destruct o; cbn [relinking] in H; try discriminate H; exact I. Qed.
+
+Lemma sem_okd_tr_ok : forall i ops w, sem_okd i w ops = true -> tr_ok i w ops.
+Proof.
+  intros i. induction ops as [|o r IH]; intros w H; [constructor|].
+  cbn [sem_okd] in H. apply andb_prop in H. destruct H as [H1 H2]. specialize (IH _ H2).
+  assert (G : forall o', o' = o -> touches i o' = false -> double_move var w o' = false ->
+              order_keptb (it_list w i) (it_list (fst (step1 var dcap w o')) i) = true -> tr_ok i w (o' :: r)).
+  { intros o' -> Ht Hd Hk. apply tr_mut; [exact Ht| |exact IH].
+    destruct (relinking o) eqn:Rl; [right; auto|left; apply calm_or_relinking; exact Rl]. }
+  destruct o; try (apply andb_prop in H1; destruct H1 as [H1 Hk]; apply andb_prop in H1; destruct H1 as [Ht Hd];
+                   apply negb_true_iff in Ht; apply negb_true_iff in Hd; apply (G _ eq_refl Ht Hd Hk)).
+  destruct (Nat.eqb i0 i) eqn:E.
+  - apply Nat.eqb_eq in E. subst i0. apply tr_adv. exact IH.
+  - apply (G _ eq_refl); [cbn [touches]; exact E|reflexivity|exact H1].
+Qed.
 
 Lemma trav_mut : forall i w o r, touches i o = false ->
   trav i w (o :: r) = trav i (fst (step1 var dcap w o)) r.
@@ -174,7 +206,7 @@ Proof.
     rewrite trav_adv. rewrite (cur_detached _ i) by (rewrite Eo; exact O). cbn [opt_list app].
     apply IH; [apply step1_WF; exact W|apply Rg; exact R|rewrite Eo; exact O|exact Ok'].
   - rewrite (trav_mut i w o r Ht).
-    destruct (calm_step var dcap w o i W Hc Ht R) as [[Cn Cf Ck Cr Cd] R'].
+    destruct (quiet_step var dcap w o i W Hc Ht R) as [[Cn Cf Ck Cr Cd] R'].
     apply IH; [apply step1_WF; exact W|exact R'|apply Cd; exact O|exact Ok'].
 Qed.
 
@@ -192,7 +224,7 @@ Proof.
     + destruct (IH _ (step1_WF var dcap w _ W) (Rg R) Ok' n Hn) as [H|H]; [left; apply Psub; exact H|right; rewrite <- Ef; exact H].
   - (* calm mutation *)
     rewrite (trav_mut i w o r Ht) in Hn.
-    destruct (calm_step var dcap w o i W Hc Ht R) as [[Cn Cf Ck Cr Cd] R'].
+    destruct (quiet_step var dcap w o i W Hc Ht R) as [[Cn Cf Ck Cr Cd] R'].
     destruct (it_owner (fst (step1 var dcap w o)) i) eqn:O.
     + destruct (IH _ (step1_WF var dcap w o W) R' Ok' n Hn) as [H|H]; [apply Cr; exact H|].
       right. eapply Pos.le_trans; [apply Cf; congruence|exact H].
@@ -212,7 +244,7 @@ Proof.
     intro Hin. destruct (Pc x eq_refl) as [Hp Hnp].
     destruct (trav_bound i r w' W' (Rg R) Ok' x Hin) as [H|H]; [contradiction|].
     pose proof (it_list_bound w i x W (pending_incl w i x W Hp)) as B. rewrite Ef in H. lia.
-  - rewrite (trav_mut i w o r Ht). destruct (calm_step var dcap w o i W Hc Ht R) as [_ R'].
+  - rewrite (trav_mut i w o r Ht). destruct (quiet_step var dcap w o i W Hc Ht R) as [_ R'].
     apply IH; [apply step1_WF; exact W|exact R'|exact Ok'].
 Qed.
 
@@ -230,7 +262,7 @@ Proof.
     + destruct (IH _ (step1_WF var dcap w _ W) (Rg R) Ok' n H St2) as [A|A]; [left; apply in_or_app; right; exact A|right; exact A].
     + left. rewrite H. left; reflexivity.
   - rewrite (trav_mut i w o r Ht). change (run1 var dcap w (o :: r)) with (run1 var dcap (fst (step1 var dcap w o)) r).
-    destruct (calm_step var dcap w o i W Hc Ht R) as [[Cn Cf Ck Cr Cd] R'].
+    destruct (quiet_step var dcap w o i W Hc Ht R) as [[Cn Cf Ck Cr Cd] R'].
     apply (IH _ (step1_WF var dcap w o W) R' Ok' n (Ck n Hp St1) St2).
 Qed.
 
